@@ -14,6 +14,7 @@ NOTES = {
     "C19-D": "needs 100 or more consecutive empty reads of the source: deliberately outside the domain the C19 monitor drives (an io.Reader may return 0, nil only occasionally)",
     "C06-H": "thorough tier only: needs one sysex with more than 2^32 data bytes (about 20 s of CPU; C06 'sysex-beyond-2^32-bytes', confirmed against the change)",
     "C19-G": "a package-level scratch buffer shared by the Send of two out-ports of the process-backed driver: outside C19's domain (the line format and its reader); caught by C17 (race detector report and torn lines)",
+    "C14-I": "manifests only on streams outside C14's stated domain (running-status data bytes directly behind a sysex: not a legal elision); caught by C06, which quantifies over all byte streams",
     "C17-F": "detection depends on which helper process dies first: violated (Send fails) in most runs, otherwise inconclusive (probe never observed), never 'held'",
 }
 
@@ -28,7 +29,7 @@ out = ["# Seeded property-breaking changes and the checks that catch them", "",
        "Every change below compiles, passes the 66 pinned tests, comes with a demonstration that fails with it and passes without it",
        "(all confirmed independently by selftest/ingest.sh in a scratch worktree of /repo HEAD), and was then run against the quick checks",
        "(column 'run': ALL = all 20 quick checks, otherwise the listed ones: the target property's check plus the checks that fired in an earlier full run).", "",
-       "Waves: A, B realistic changes; C 'hard'; D, E, F, G 'as hard to detect as possible, knowing the defences built so far' (each wave was told the workload dimensions added after the previous ones).", "",
+       "Waves: A, B realistic changes; C 'hard'; D-H 'as hard to detect as possible, knowing the defences built so far' (each wave was told the workload dimensions added after the previous ones); I, J: agents given nothing but the property text and a worktree, two changes of different mechanism each. The table shows the state after the workload dimensions that the misses prompted were added; 'first pass' in the summary is what the checks caught when a wave was first ingested.", "",
        "| change | breaks | run | caught by (quick) | target caught | what it needs to manifest |", "|---|---|---|---|---|---|"]
 missed = []
 per_wave = collections.OrderedDict()
@@ -50,6 +51,13 @@ for r in rows:
         tgt += " (this run: inconclusive)"
     out.append(f"| {r['id']} | {r['prop']} | {runs} | {' '.join(r['fired']) or '-'} | {tgt} | {r['needs']} |")
 
+# changes that the check of their own property did NOT catch when the wave was first ingested (before the dimension they prompted was added)
+FIRST_PASS_MISSES = {
+    "G": ["C07-G", "C08-G", "C11-G", "C14-G", "C18-G", "C19-G", "C20-G"],
+    "H": ["C01-H", "C02-H", "C03-H", "C04-H", "C05-H", "C06-H", "C09-H", "C10-H", "C12-H", "C13-H", "C16-H", "C17-H"],
+    "I": ["C14-I", "C17-I"],
+    "J": ["C03-J", "C05-J", "C07-J", "C10-J", "C12-J", "C14-J", "C16-J", "C18-J", "C19-J"],
+}
 summary = ["| wave | changes | caught by the quick check of their own property | not caught by it |", "|---|---|---|---|"]
 for wave, (n, okn, miss) in per_wave.items():
     summary.append(f"| {wave} | {n} | {okn} | {', '.join(miss) or '-'} |")
